@@ -17,8 +17,8 @@ def js_string(total_len):
     return "x" * (total_len - 2)
 
 def points():
-    return ["api-start-input", "api-startsync-input", "pass-output", "pass-end-output", "task-reply", "task-end-reply", "task-reply-discarded", "invoke-reply-discarded",
-            "map-output", "parallel-output", "callback-output", "callback-raw", "callback-raw-discarded", "definition-create", "definition-update", "name-create", "name-start", "history", "history-retry"]
+    return ["api-start-input", "api-startsync-input", "pass-output", "pass-end-output", "task-reply", "task-end-reply", "task-reply-discarded", "invoke-reply-discarded", "task-reply-discarded-compact", "task-reply-discarded-padded",
+            "map-output", "parallel-output", "callback-output", "callback-raw", "callback-raw-discarded", "definition-create", "definition-update", "name-create", "name-start", "name-create-nl", "name-start-nl", "history", "history-retry"]
 
 def _case(args):
     point, size = args
@@ -90,6 +90,25 @@ def _case(args):
         status, err = terminal(w, exec_arn("m", "e"))
         got = ("accepted",) if status == "SUCCEEDED" else ("refused", err, status)
         want_err = "States.DataLimitExceeded"
+    elif point in ("task-reply-discarded-compact", "task-reply-discarded-padded"):
+        # the quota is on the characters of the reply text as sent, whatever its formatting: a compact array (no blanks after the commas)
+        # and a short value followed by insignificant white space, each of exactly the given length
+        if size < 6:
+            text = ("[" + "1" * (size - 2) + "]") if point.endswith("compact") else ("1" + " " * (size - 1))
+        elif point.endswith("compact"):
+            k = (size - 3) // 2
+            text = "[" + ("1" if (size - 3) % 2 == 0 else "11") + ",1" * (k if (size - 3) % 2 == 0 else k) + "]"
+            text = text if len(text) == size else "[" + "1" * (size - len(text) + 1) + text[2:]
+        else:
+            text = '"pad"' + " " * (size - 5)
+        assert len(text) == size and json.loads(text) is not None, (len(text), size)
+        st_ = {"Type": "Task", "Resource": FA + "f", "ResultPath": None, "Next": "Z"}
+        w, api = world({"m": {"StartAt": "A", "States": {"A": st_, "Z": Z}}}, workers={"f": {"*": [["raw", text]]}})
+        w.script.append({"op": "start", "machine": "m", "name": "e", "input": {}})
+        w.run()
+        status, err = terminal(w, exec_arn("m", "e"))
+        got = ("accepted",) if status == "SUCCEEDED" else ("refused", err, status)
+        want_err = "States.DataLimitExceeded"
     elif point in ("callback-raw", "callback-raw-discarded"):
         # the callback message as any AMQP client (another front end) can publish it to the reply queue, not through this API
         from pika._core import BasicProperties
@@ -145,8 +164,10 @@ def _case(args):
             st, js, _ = api.call("UpdateStateMachine", {"stateMachineArn": sm_arn("m"), "definition": text})
         got = ("accepted",) if st == 200 else ("refused", (js or {}).get("__type") if isinstance(js, dict) else None, st)
         want_err = "InvalidDefinition"
-    elif point in ("name-create", "name-start"):
-        nm = "n" * size
+    elif point in ("name-create", "name-start", "name-create-nl", "name-start-nl"):
+        # (-nl: the last character is a line feed, which is not among the forbidden characters: it counts like any other)
+        nm = "n" * size if not point.endswith("-nl") else ("n" * (size - 1) + "\n")[:size]
+        point = point[:-3] if point.endswith("-nl") else point
         w, api = world({"m": {"StartAt": "A", "States": {"A": {"Type": "Pass", "End": True}}}})
         if point == "name-create":
             st, js, _ = api.call("CreateStateMachine", {"name": nm, "roleArn": "arn:aws:iam::0123456789:role/r", "definition": json.dumps({"StartAt": "A", "States": {"A": {"Type": "Pass", "End": True}}})})
